@@ -276,12 +276,18 @@ def _run_raw(exe, lines, timeout):
     return rc, out, se.decode("latin-1", "replace")[-6000:]
 
 
-def _run_chunk(exe, lines, timeout):
+# a tree that is broken badly kills the driver on thousands of lines; each death costs a sanitizer report and a new
+# process.  After this many deaths in one chunk the rest of the chunk is not run (reported as such): the check
+# has long failed by then, and a seeded-change run ends in minutes instead of a quarter of an hour
+MAX_DEATHS_PER_CHUNK = 400      # default; the extensible-type and leaf layers (no known crash findings there) pass 40
+
+
+def _run_chunk(exe, lines, timeout, max_deaths=MAX_DEATHS_PER_CHUNK):
     outs = []
     errs = {}
     pos = 0
     guard = 0
-    while pos < len(lines) and guard < 400:
+    while pos < len(lines) and guard < max_deaths:
         guard += 1
         chunk = lines[pos:]
         rc, out, err = _run_raw(exe, chunk, timeout)
@@ -307,7 +313,7 @@ def _run_chunk(exe, lines, timeout):
     return outs, errs
 
 
-def run_many(jobs, nproc=None, timeout=150, per_chunk=80):
+def run_many(jobs, nproc=None, timeout=150, per_chunk=80, max_deaths=MAX_DEATHS_PER_CHUNK):
     """jobs = [(exe, lines)]; all chunks of all jobs share one pool of processes.
     Returns [(outputs, {index: (kind, rc, stderr tail)})] in the order of jobs"""
     nproc = nproc or NCPU
@@ -321,7 +327,7 @@ def run_many(jobs, nproc=None, timeout=150, per_chunk=80):
             tasks.append((j, i, exe, lines[i:i + size]))
     res = [([None] * len(lines), {}) for (exe, lines) in jobs]
     with ThreadPoolExecutor(max_workers=nproc) as ex:
-        futs = [(j, i, ex.submit(_run_chunk, exe, ch, timeout)) for (j, i, exe, ch) in tasks]
+        futs = [(j, i, ex.submit(_run_chunk, exe, ch, timeout, max_deaths)) for (j, i, exe, ch) in tasks]
         for j, i, f in futs:
             o, e = f.result()
             res[j][0][i:i + len(o)] = o
@@ -385,14 +391,15 @@ def model_guarded(model, lines, cpu=2, mem_mb=1500, nproc=None):
         return list(ex.map(one, lines))
 
 
-D4 = re.compile(r"^(OK|MORE|FAIL|RC\?) (\d+) (\S+) ck=(-?\d+) re=(\S+) live=(-?\d+)( ATEXIT)?$")
+D4 = re.compile(r"^(OK|MORE|FAIL|RC\?) (\d+) (\S+) ck=(-?\d+) re=(\S+) live=(-?\d+)(?: slack=(\S+))?( ATEXIT)?$")
 
 
 def parse_d4(o):
     m = D4.match(o)
     if not m:
         return None
-    return {"rc": m.group(1), "consumed": int(m.group(2)), "der": m.group(3), "ck": int(m.group(4)), "re": m.group(5), "live": int(m.group(6))}
+    return {"rc": m.group(1), "consumed": int(m.group(2)), "der": m.group(3), "ck": int(m.group(4)), "re": m.group(5), "live": int(m.group(6)),
+            "slack": m.group(7)}
 
 
 def stack_site(err):
@@ -409,7 +416,7 @@ def stack_site(err):
 # elements start a new one)
 
 class BNode:
-    __slots__ = ("tag", "cons", "form", "content", "kids", "tree", "end")
+    __slots__ = ("tag", "cons", "form", "content", "kids", "tree", "end", "hdr", "cons_raw")
 
 
 def parse_ber_any(b, pos, depth=0):
